@@ -16,6 +16,11 @@ SRC = {
     "au_3577_tile": ("epsg:3577", (1200000.0, -3500000.0), 25.0, (50, 60), 0),
     "au_4326_tile": ("epsg:4326", (145.0, -25.0), 0.001, (40, 50), 0),
     "equator_4326": ("epsg:4326", (30.2, -0.3), 0.01, (60, 40), 0),
+    "eu_32633_rot180": ("epsg:32633", (430000.0, 5540000.0), 30.0, (50, 40), 180),
+    "eu_4326_rot180": ("epsg:4326", (14.0, 50.0), 0.0005, (60, 70), 180),
+    "eu_3857_southup": ("epsg:3857", (1558472.0, 6446275.0), 10.0, (64, 80), "flipy"),
+    "eu_3857_mirrored": ("epsg:3857", (1558472.0, 6446275.0), 10.0, (64, 80), "flipx"),
+    "eu_32633_offlattice": ("epsg:32633", (430007.0, 5540011.0), 30.0, (50, 40), 0),
 }
 EXPLICIT = {"metre": 100.0, "degree": 0.001}
 
@@ -27,6 +32,10 @@ def _source(name):
 
     crs, (x0, y0), res, shape, rot = SRC[name]
     g = GeoBox(shape, Affine(res, 0, x0, 0, -res, y0 + res * shape[0]), crs)
+    if rot == "flipy":
+        return g.flipy()
+    if rot == "flipx":
+        return g.flipx()
     return g.rotate(rot) if rot else g
 
 
@@ -47,7 +56,7 @@ def execute(c):
         crs_arg = t if t.startswith("utm") else f"epsg:{t}"
         kw = {"tight": o["tight"], "tol": o["tol"][0] / o["tol"][1]}
         if o["anchor"] != "default":
-            kw["anchor"] = "center" if o["anchor"] == "center" else xy_(0.25, 0.75)
+            kw["anchor"] = o["anchor"] if o["anchor"] in ("center", "edge") else xy_(0.25, 0.75)
         # resolved target CRS (independent of the code under test for fixed EPSG targets)
         how = (len(json.dumps(c)) + len(c["source"])) % 3
         if o["shape"] == "pair":
